@@ -242,4 +242,23 @@ pub mod vx_export {
         let b = after.get(&user).map(|(v, val)| (*v, val.0.clone()));
         Ok((a, b))
     }
+
+    /// C17 (set operations): the sorted (binary-searchable) and the unsorted code path of AzksElementSet on the same labels.
+    /// Returns for (labels, prefix): ((left, right) of partition as label lists for both variants, lcp for both, contains_prefix for both).
+    pub fn c17_set_ops<TC: Configuration>(labels: &[NodeLabel], prefix: NodeLabel)
+        -> ((Vec<NodeLabel>, Vec<NodeLabel>), (Vec<NodeLabel>, Vec<NodeLabel>), NodeLabel, NodeLabel, bool, bool, bool) {
+        use crate::append_only_zks::AzksElementSet;
+        let nodes: Vec<AzksElement> = labels.iter().map(|l| AzksElement { label: *l, value: AzksValue([0u8; 32]) }).collect();
+        let auto = AzksElementSet::from(nodes.clone());
+        let is_sorted_variant = matches!(auto, AzksElementSet::BinarySearchable(_));
+        let unsorted = AzksElementSet::Unsorted(nodes);
+        let lcp_a = auto.get_longest_common_prefix::<TC>();
+        let lcp_u = unsorted.get_longest_common_prefix::<TC>();
+        let cp_a = auto.contains_prefix(&prefix);
+        let cp_u = unsorted.contains_prefix(&prefix);
+        let (la, ra) = auto.partition(prefix);
+        let (lu, ru) = unsorted.partition(prefix);
+        let ls = |s: &AzksElementSet| s.iter().map(|e| e.label).collect::<Vec<_>>();
+        ((ls(&la), ls(&ra)), (ls(&lu), ls(&ru)), lcp_a, lcp_u, cp_a, cp_u, is_sorted_variant)
+    }
 }
